@@ -436,8 +436,51 @@ def _kf_decrypt(cc, d, key, blob):
         return ctx.decrypt(cc.fields.SecureValue("aes", blob))
 
 
+def exhaustive(tier):
+    """Fresh IVs across a fork: a process that has already encrypted forks; parent and child keep encrypting the same text."""
+    for warm in (0, 1, 5):
+        for n in (1, 4, 40):
+            yield {"mode": "fork-iv", "warm": warm, "n": n}
+
+
+def _fork_iv(case, R):
+    from cincoconfig.encryption import AesProvider
+    key = bytes(range(32))
+    text = b"the same plaintext in both processes"
+    for _ in range(case["warm"]):
+        AesProvider(key).encrypt(text)
+    n = case["n"]
+    rfd, wfd = os.pipe()
+    pid = os.fork()
+    if pid == 0:  # child: encrypt n times, hand the IVs to the parent, leave without running any clean-up
+        try:
+            os.close(rfd)
+            os.write(wfd, b"".join(AesProvider(key).encrypt(text)[:16] for _ in range(n)))
+        finally:
+            os._exit(0)
+    os.close(wfd)
+    mine = [AesProvider(key).encrypt(text)[:16] for _ in range(n)]
+    data = b""
+    while True:
+        chunk = os.read(rfd, 65536)
+        if not chunk:
+            break
+        data += chunk
+    os.close(rfd)
+    os.waitpid(pid, 0)
+    theirs = [data[i:i + 16] for i in range(0, len(data), 16)]
+    R.nontrivial = True
+    if not R.check(len(theirs) == n, "fresh-iv", "fork:child", "the forked child delivered %d IVs, expected %d" % (len(theirs), n)):
+        return
+    common = set(mine) & set(theirs)
+    R.check(not common and len(set(mine)) == n and len(set(theirs)) == n, "fresh-iv", "fork",
+            lambda: "after a fork, parent and child used %d common IV(s) for the same plaintext (equal ciphertexts)" % len(common))
+
+
 def run_case(case, R):
     R.label("mode:" + case["mode"])
+    if case["mode"] == "fork-iv":
+        return _fork_iv(case, R)
     with sandbox.CaseDir() as d:
         if case["mode"] == "aes-blob":
             _aes_blob(case, R, d)
